@@ -143,8 +143,19 @@ fn long_strat() -> BoxedStrategy<Case> {
         .boxed()
 }
 
+/// many candidates (33-120) over a two-letter alphabet: large groups of equal ratios, n cutting
+/// through a group
+fn many_strat() -> BoxedStrategy<Case> {
+    (vec(0usize..2, 0..=6), vec(vec(0usize..3, 0..=6), 33..=120), prop_oneof![4 => 1usize..8, 1 => Just(40usize), 1 => Just(usize::MAX)], prop_oneof![Just(0.0f32), Just(0.3), Just(0.5), Just(0.6)], any::<bool>())
+        .prop_map(|(w, cs, n, cutoff, bytes)| {
+            let cands: Vec<BStr> = cs.iter().map(|c| render(c, false)).collect();
+            Case { word: render(&w, false), cands, n, cutoff, bytes }
+        })
+        .boxed()
+}
+
 fn strat(_tier: Tier) -> BoxedStrategy<Case> {
-    prop_oneof![60 => short_strat(), 1 => long_strat()].boxed()
+    prop_oneof![120 => short_strat(), 2 => long_strat(), 1 => many_strat()].boxed()
 }
 
 fn short_strat() -> BoxedStrategy<Case> {
@@ -211,7 +222,7 @@ impl Prop for C18 {
     type Case = Case;
     const ID: &'static str = "C18";
     fn rule() -> String {
-        "cases = (word, 0-10 candidates, n in 0..6 | usize::MAX | 2^60, cutoff, str | [u8]); 1 case in ~60 uses words of 100-300 symbols with candidates 1-6 edits away (ratios that differ by less than 1e-4); words over a 7-symbol alphabet incl. multi-byte and a combining sequence, for [u8] additionally 4 non-UTF-8 symbols (latin-1 byte, 0xFF, lone continuation byte, truncated 4-byte sequence; a character of a byte string = one scalar value or one maximal invalid subpart); candidates independent or 1-2 edits away from the word, duplicates and empty strings included; cutoff in {0, 0.5, 0.6, 1.0} | the exact ratio of one candidate (so '>= cutoff' is hit exactly) | hundredths. Oracle: brute force — ratio = 2*LCS(chars)/(n+m) by an independent DP (1.0 for two empty strings), keep ratio >= cutoff, sort by ratio descending then candidate ascending (bytewise), take n, compare as value lists. Non-trivial = result non-empty and shorter than the candidate list; distinct = distinct serialized case.".into()
+        "cases = (word, 0-10 candidates, n in 0..6 | usize::MAX | 2^60, cutoff, str | [u8]); 1 case in ~120 has 33-120 candidates over a two/three-letter alphabet (large groups of equal ratios, n cutting through a group); 1 case in ~60 uses words of 100-300 symbols with candidates 1-6 edits away (ratios that differ by less than 1e-4); words over a 7-symbol alphabet incl. multi-byte and a combining sequence, for [u8] additionally 4 non-UTF-8 symbols (latin-1 byte, 0xFF, lone continuation byte, truncated 4-byte sequence; a character of a byte string = one scalar value or one maximal invalid subpart); candidates independent or 1-2 edits away from the word, duplicates and empty strings included; cutoff in {0, 0.5, 0.6, 1.0} | the exact ratio of one candidate (so '>= cutoff' is hit exactly) | hundredths. Oracle: brute force — ratio = 2*LCS(chars)/(n+m) by an independent DP (1.0 for two empty strings), keep ratio >= cutoff, sort by ratio descending then candidate ascending (bytewise), take n, compare as value lists. Non-trivial = result non-empty and shorter than the candidate list; distinct = distinct serialized case.".into()
     }
     fn assumptions() -> Vec<String> {
         vec!["ratios are computed in f32 with the same expression as the documented formula; for words up to a few hundred symbols distinct f32 ratios stay distinct under the library's scaling to u32 (exact power-of-two scaling for ratios >= 2^-8)".into()]
